@@ -9,6 +9,7 @@ import (
 	"github.com/talostrading/sonic/codec/websocket"
 	"github.com/talostrading/sonic/sonicerrors"
 
+	shimnet "sonicverif/shim/net"
 	"sonicverif/sim"
 )
 
@@ -26,6 +27,8 @@ var (
 	c06pLen64      = sim.RegStat("probe:c06-64-bit-length-frame")
 	c06pCutHeader  = sim.RegStat("probe:c06-cut-inside-a-frame-header")
 	c06pWithHS     = sim.RegStat("probe:c06-frames-split-together-with-handshake-response")
+	c06pEOFBehind  = sim.RegStat("probe:c06-peer-ends-the-stream-right-behind-its-last-frame")
+	c06pDataEOF    = sim.RegStat("probe:c06-transport-reports-eof-together-with-the-last-bytes")
 	c06pChained    = sim.RegStat("probe:c06-next-read-started-from-inside-the-completion")
 	c06pAPI        = [4]sim.StatID{sim.RegStat("probe:c06-api-NextMessage"), sim.RegStat("probe:c06-api-AsyncNextMessage"), sim.RegStat("probe:c06-api-NextFrame"), sim.RegStat("probe:c06-api-AsyncNextFrame")}
 )
@@ -431,6 +434,19 @@ func runC06(c *Ctx, variant int) {
 		d.mem.Partial = w.Chance(1, 2)
 		d.mem.Defer = w.Chance(1, 3)
 		d.feed(g.wire, cuts)
+	}
+	if variant < 0 && w.Chance(1, 3) {
+		// the peer ends the stream directly behind its last frame; a transport may then hand the last bytes
+		// over together with the end-of-stream indication (tls.Conn does, for a close_notify behind the data)
+		w.Stat(c06pEOFBehind)
+		if w.Chance(2, 3) {
+			w.Stat(c06pDataEOF)
+			shimnet.EOFWithData = true
+			if d.mem != nil {
+				d.mem.EOFWithData = true
+			}
+		}
+		d.feedEOF()
 	}
 	r := &c06Reader{d: d, c: c, api: api, max: maxSize, chain: w.Chance(1, 2)}
 	func() {
